@@ -135,6 +135,9 @@ def decorate_faults(rng, spec, n_fault_nodes=None, allow_base=True, p_retry=0.5)
         if rng.random() < 0.3:
             # input-dependent failure: raises only for one half of the argument space
             plan = [p + '?' if p in ('E1', 'E2', 'E3') else p for p in plan]
+            if rng.random() < 0.3:
+                # ... and another exception class (or the same outcome path reached differently) for the other half
+                plan = [p + rng.choice(['E1', 'E2', 'E3']) if p.endswith('?') and rng.random() < 0.6 else p for p in plan]
         n['plan'] = plan
     for n in names:
         if n in chosen or rng.random() < 0.1:
@@ -233,6 +236,15 @@ def gen_rec(rng, faults=True, n_max=10, _allow_outside=False, **kw):
             if rng.random() < 0.3:
                 # a path node that fails for one half of its argument space: typically in a later iteration only
                 nodes[rng.choice(sorted(P))]['plan'] = [rng.choice(['E1?', 'E2?', 'E3?'])]
+            if rng.random() < 0.2:
+                # a path node whose executions differ between iterations: a non-retryable failure (-> default) for one
+                # half of its argument space, retryable failures up to the last allowed attempt for the other half
+                # (seed C12d: attempt state surviving from one execution of a node to its next one in the same run)
+                a = rng.choice([2, 3, 3])
+                victim = nodes[rng.choice(sorted(P))]
+                victim['plan'] = ['E3?E1'] + ['E1'] * (a - 2) + ['ok']
+                victim['retry'] = {'attempts': a, 'delay': rng.choice(RETRY_DELAY), 'exceptions': ['E1'],
+                                   'use_default': True}
         if rng.random() < 0.5:
             r = nodes[dest].setdefault('retry', {'attempts': None, 'delay': None, 'exceptions': None})
             r['use_default'] = True
@@ -489,6 +501,61 @@ def gen_rec_mixed(rng, faults=True, n_max=9, **kw):
             spec['class'] = 'rec_mixed'
             return spec
     return gen_rec(rng, faults=faults, n_max=n_max)
+
+
+def gen_rec_switch(rng, faults=True, n_max=9, **kw):
+    """a switch INSIDE a recurrent path whose decider is re-executed in every iteration (and may return another
+    label, or one without a case, in a later iteration) while its case nodes are constants outside the path: they
+    depend on the input node only, so the part of known finding K04 that needs a case / candidate sub-pipeline on
+    the path (re-execution of non-selected branches) cannot arise.  Shape of seeds C09d / C11c."""
+    b = Builder(rng)
+    n0 = b.new([])
+    ncase = rng.choice([2, 2, 3])
+    cases = []
+    for i in range(ncase):
+        c = b.new(b.in_params([n0]))
+        if rng.random() < 0.3:
+            c2 = b.new(b.in_params([c]))
+            c = c2
+        cases.append(c)
+    start = b.new(b.in_params([n0]), add_data=True)
+    up = start
+    if rng.random() < 0.4:
+        up = b.new(b.in_params([start]))
+    labels = [f'L{i}' for i in range(ncase)]
+    table = [[lb, c] for lb, c in zip(labels, cases)]
+    dl = list(labels)
+    if rng.random() < 0.3:
+        dl.append(rng.choice(['UNK', None, 0, '']))
+    dec = b.new(b.in_params([up]), value={'labels': dl})
+    cons_params = [['a0', ['Switch', 'sw1' if rng.random() < 0.7 else None, dec, table]]]
+    if rng.random() < 0.4:
+        cons_params.append(['a1', ['In', up]])
+    cons = b.new(cons_params)
+    dest_src = cons
+    if rng.random() < 0.3:
+        dest_src = b.new(b.in_params([cons]))
+    mx = rng.choice([1, 2, 3, 4])
+    dest = b.new(b.in_params([dest_src]), rec={'start': start, 'k': rng.choice([0, 1, 1, 2, 2, 3, mx, mx + 1])})
+    outp = [['a0', ['Rec', start, dest, mx]]]
+    if rng.random() < 0.3:
+        outp.append(['a1', ['In', n0]])
+    out = b.new(outp)
+    spec = {'nodes': b.nodes, 'input': n0, 'output': out}
+    assign_modes(rng, spec['nodes'])
+    if faults and rng.random() < 0.5:
+        nodes = {n['name']: n for n in spec['nodes']}
+        victim = nodes[rng.choice([start, up, dec, cons, dest_src] + cases)]
+        victim['plan'] = [rng.choice(['E1?', 'E2?', 'E3?', 'E1', 'E1?E3'])] + rng.choice([[], ['ok'], ['E1', 'ok']])
+        if rng.random() < 0.5:
+            victim['retry'] = {'attempts': rng.choice(RETRY_ATTEMPTS), 'delay': rng.choice(RETRY_DELAY),
+                               'exceptions': rng.choice(RETRY_EXC), 'use_default': rng.random() < 0.35}
+    if rng.random() < 0.5:
+        nodes = {n['name']: n for n in spec['nodes']}
+        r = nodes[dest].setdefault('retry', {'attempts': None, 'delay': None, 'exceptions': None})
+        r['use_default'] = True
+    spec['class'] = 'rec_switch'
+    return spec
 
 
 _CORPUS = None
@@ -938,6 +1005,7 @@ def gen_hub(rng, faults=True, n_max=10, **kw):
 GENERATORS['hub'] = gen_hub
 GENERATORS['corpus'] = gen_corpus
 GENERATORS['rec_mixed'] = gen_rec_mixed
+GENERATORS['rec_switch'] = gen_rec_switch
 GENERATORS['rec_inner'] = gen_rec_inner
 GENERATORS['oneof_rec'] = gen_oneof_rec
 
